@@ -110,7 +110,10 @@ def check_trajectory(fname, b, result):
         span = tmax - tmin
         if span != float('inf') and float(span).is_integer() and np.any(t > tmax):
             _rec(fname, m, 'time_not_beyond_tmax', {'tmax': tmax, 'max_t': float(t.max())})
-        if np.any(np.abs(dt - 1) > 1e-9):
+        # plain arrays have one row per step; the summary of a full-data object only has the steps at which some status changed
+        # (with a user recovery rule a step can pass without any change), so there the steps are whole numbers >= 1
+        whole = np.all(np.abs(dt - np.round(dt)) < 1e-9) and np.all(dt > 1 - 1e-9)
+        if (mode == 'full' and not whole) or (mode != 'full' and np.any(np.abs(dt - 1) > 1e-9)):
             _rec(fname, m, 'unit_steps', {'dt': [float(x) for x in dt[:5]]})
     cols = np.array([D[s] for s in sts])
     if not np.all(cols == np.round(cols)):
